@@ -248,9 +248,16 @@ func (w *world) checkGroups(keys [][]byte, groups map[locate.RegionVerID][][]byt
 // checkNoRegress compares two consecutive white-box dumps. Between two dumps the cache has
 // installed at most the regions of ONE PD answer / one store answer (dumps are taken at every
 // PD region query and after every op), so "what the cache already holds" is the older dump.
-//  1. per region id the newest cached version / conf version never decreases;
+//  1. per region id the newest cached version / conf version (the cache's own latestVersions
+//     bookkeeping) never decreases;
 //  2. a newly installed entry is not older (version) than a previously cached entry that
-//     starts inside its range, nor older than a previously cached entry of the same region.
+//     starts inside its range, nor older than a previously cached entry of the same region;
+//  3. per region id, INDEPENDENT of latestVersions: the newest epoch among the entries the cache
+//     held (ordered index and by-version map of the older dump, valid or not) is computed by the
+//     harness; a newly installed entry of that id with a lower version, or with that version and
+//     a lower conf version, is a regression. The key says which component went back and whether
+//     the cache's latestVersions had lost the id at that moment although it still held an entry
+//     of it (the state that disarms the cache's own same-region check).
 func (w *world) checkNoRegress(a, b *locate.VerifC09Dump) {
 	w.st.evals.Add(1)
 	old := map[uint64][2]uint64{}
@@ -267,6 +274,23 @@ func (w *world) checkNoRegress(a, b *locate.VerifC09Dump) {
 	for _, e := range a.Sorted {
 		had[[3]uint64{e.ID, e.Ver, e.ConfVer}] = true
 	}
+	// newest epoch held per region id, from the entries themselves (lexicographic: version, then
+	// conf version among the entries of that version)
+	held := map[uint64][2]uint64{}
+	hold := func(es []locate.VerifC09Entry) {
+		for i := range es {
+			e := &es[i]
+			if h, ok := held[e.ID]; !ok || e.Ver > h[0] || (e.Ver == h[0] && e.ConfVer > h[1]) {
+				held[e.ID] = [2]uint64{e.Ver, e.ConfVer}
+			}
+		}
+	}
+	hold(a.Sorted)
+	hold(a.Regions)
+	for _, e := range a.Regions {
+		had[[3]uint64{e.ID, e.Ver, e.ConfVer}] = true
+	}
+	reported := map[[3]uint64]bool{}
 	for _, n := range b.Sorted {
 		if had[[3]uint64{n.ID, n.Ver, n.ConfVer}] {
 			continue
@@ -282,7 +306,58 @@ func (w *world) checkNoRegress(a, b *locate.VerifC09Dump) {
 					w.curOp, n.ID, n.Ver, n.ConfVer, o.ID, o.Ver, o.ConfVer, w.cacheStr(a), w.cacheStr(b)))
 			}
 		}
+		h, ok := held[n.ID]
+		if !ok || reported[[3]uint64{n.ID, n.Ver, n.ConfVer}] {
+			continue
+		}
+		w.st.sameIDInstalls.Add(1)
+		what := ""
+		switch {
+		case n.Ver < h[0]:
+			what = "version"
+		case n.Ver == h[0] && n.ConfVer < h[1]:
+			what = "conf-version"
+		}
+		if what == "" {
+			continue
+		}
+		reported[[3]uint64{n.ID, n.Ver, n.ConfVer}] = true
+		key := "regress:region-id:" + what + "-went-back"
+		if _, known := old[n.ID]; !known {
+			key += ":while-latest-version-forgotten"
+		}
+		w.report(key, fmt.Sprintf("%s: installed r%d@%d.%d [%s,%s) although the cache held r%d@%d.%d (latestVersions before: %v); cache before %s after %s",
+			w.curOp, n.ID, n.Ver, n.ConfVer, n.Start, n.End, n.ID, h[0], h[1], old[n.ID], w.cacheStr(a), w.cacheStr(b)))
 	}
+}
+
+// leftoverIDs: region ids of which the ordered index holds more than one entry (an older version
+// of the region lingering under another start key next to a newer one).
+func leftoverIDs(d *locate.VerifC09Dump) int {
+	n, seen := 0, map[uint64]int{}
+	for i := range d.Sorted {
+		seen[d.Sorted[i].ID]++
+		if seen[d.Sorted[i].ID] == 2 {
+			n++
+		}
+	}
+	return n
+}
+
+// forgottenIDs: region ids with an entry in the ordered index but none in latestVersions.
+func forgottenIDs(d *locate.VerifC09Dump) int {
+	lat := map[uint64]bool{}
+	for _, l := range d.Latest {
+		lat[l[0]] = true
+	}
+	n, seen := 0, map[uint64]bool{}
+	for i := range d.Sorted {
+		if id := d.Sorted[i].ID; !lat[id] && !seen[id] {
+			seen[id] = true
+			n++
+		}
+	}
+	return n
 }
 
 // ---- canonical state key ----
@@ -418,5 +493,12 @@ func (w *world) countReloadState() {
 	}
 	if f&(locate.VerifC09FlagReloadOnAccess|locate.VerifC09FlagDelayedReloadPending|locate.VerifC09FlagDelayedReloadReady) != 0 {
 		w.st.stAnyReload.Add(1)
+	}
+	// coverage of the leftover-version class
+	if leftoverIDs(&w.prev) > 0 {
+		w.st.stLeftover.Add(1)
+	}
+	if forgottenIDs(&w.prev) > 0 {
+		w.st.stForgotten.Add(1)
 	}
 }
